@@ -5,7 +5,87 @@ import vf
 
 
 def driver_binding(c, runs):
-    c.assumptions.append("driver binding (apply_outputs / Sleep deadlines) not built yet")
+    """C08 driver binding: behaviours of one connection of the PeerFsm model on the real session driver (rx_msg, the
+    timer-expiry arm, flush_tx); the deadlines of the real tokio Sleeps are compared with the ArmHold / ArmKa of the model."""
+    import json
+    import os
+    import vf
+    import fsmlib
+    inp = os.path.join(vf.WORK, "C08.hold.in")
+    outp = os.path.join(vf.WORK, "C08.hold.out")
+    exp = []
+    with open(inp, "w") as f:
+        for name, k, edges, _ in runs:
+            nxt = {}
+            for e in edges:
+                nxt[(vf.canon(e["pre"]), vf.canon(e["op"]))] = e
+            init = next(vf.canon(e["pre"]) for e in edges if all(cn["st"] == "None" for cn in e["pre"].values()))
+            opens = sorted({vf.canon(e["op"]) for e in edges if e["op"]["k"] == "open" and e["op"]["r"] == "P" and e["op"]["asok"]
+                            and e["op"]["rid"] == 1})
+            for oi, oc in enumerate(opens):
+                o = json.loads(oc)
+                h = min(k["LocalHold"], o["hold"])
+                body = ["keepalive", "keepalive", "update", "refresh", "updatesent", "keepalive", "update", "refresh", "keepalive"]
+                if h > 0:
+                    body[4:4] = ["katimer"]
+                    body += ["katimer", "updatesent", "update"]
+                script = [{"k": "connected", "r": "P"}, o] + [{"k": x, "r": "P"} for x in body]
+                sid = f"{name}/{oi}"
+                f.write(f"seq {sid} {k['LocalHold']}\n")
+                cur = init
+                for op in script:
+                    e = nxt.get((cur, vf.canon(op)))
+                    if e is None:
+                        raise vf.ToolError(f"driver script leaves the model: {op} in {cur}")
+                    f.write(fsmlib.op_line(op) + "\n")
+                    exp.append((sid, op, e, k))
+                    cur = vf.canon(e["post"])
+    if os.path.exists(outp):
+        os.remove(outp)
+    rc, out = vf.daemon_test("event::verif_harness::holddriver_replay", env={"VERIF_IN": inp, "VERIF_OUT": outp}, timeout=900)
+    if rc != 0 or not os.path.exists(outp):
+        raise vf.ToolError(f"holddriver_replay failed rc={rc}: {out[-2000:]}")
+    got = vf.read_jsonl(outp)
+    if len(got) != len(exp):
+        raise vf.ToolError(f"holddriver_replay: {len(got)} results for {len(exp)} steps")
+    seen = set()
+    hist = {}
+    for (sid, op, e, k), g in zip(exp, got):
+        hist.setdefault(sid, []).append(fsmlib.op_line(op))
+        if g.get("skipped"):
+            continue
+        if g.get("note"):
+            raise vf.ToolError(f"holddriver_replay could not drive {fsmlib.op_line(op)}: {g['note']}")
+        bad = None
+        down = any(o["t"] == "down" and o["r"] == "P" for o in e["obs"])
+        if g["terminated"] != down:
+            bad = ("terminated", f"model {'ends' if down else 'keeps'} the session, driver {'ended' if g['terminated'] else 'kept'} it")
+        for which, tag in (("hold", "sethold"), ("ka", "setka")):
+            if bad or down:
+                break
+            arm = [o["v"] for o in e["obs"] if o["t"] == tag and o["r"] == "P"]
+            moved, secs = g[which + "_moved"], g[which + "_in"]
+            if arm:
+                want = arm[-1]
+                # the model's ArmHold / ArmKa: 0 on the hold timer means "no timer" (never), otherwise now + n
+                if which == "hold" and want == 0:
+                    if secs != -1:
+                        bad = (which, f"model: hold timer off; driver: fires in {secs} s")
+                elif not moved or abs(secs - want) > 1:
+                    bad = (which, f"model: re-armed to {want} s; driver: moved={moved}, fires in {secs} s")
+            elif moved:
+                bad = (which, f"model: {which} timer untouched by this step; driver re-armed it (fires in {secs} s)")
+        if bad:
+            sig = (bad[0], op["k"])
+            if sig not in seen:
+                seen.add(sig)
+                c.violation("driver." + bad[0], {"what": bad[1], "op": op, "history": hist[sid][-12:], "config": k},
+                            {"spec": "HoldTimer", "constants": k, "ops": list(hist[sid])})
+    c.cov["parts"]["driver-binding"] = {"scripts": len(hist), "steps": len(exp)}
+    c.cov["evaluations"] = c.cov.get("evaluations", 0) + len(exp)
+    c.cov["traces_validated_against_impl"] = c.cov.get("traces_validated_against_impl", 0) + len(hist)
+    c.assumptions.append("driver binding: one (passive) connection per script; deadlines are read from the tokio Sleep objects with a "
+                         "tolerance of 1 s; expiry itself is injected as the select loop does (no real waiting)")
 
 
 def deferral_glue(c):
